@@ -1,2 +1,43 @@
-/-! Line driver for C02 (stub; replaced when the model is written). -/
-def main : IO Unit := pure ()
+import MpVerif.C02.Model
+/-! Line driver for C02 (protocol: design_notes/C02-protocol.md).  No logic of its own:
+    decodes the op, calls `readNL` / `strtod`, prints the canonical line. -/
+open MpVerif.C02
+
+def unhex (s : String) : Option ByteArray :=
+  if s == "-" then some ByteArray.empty else
+  let cs := s.toList
+  let rec go : List Char → ByteArray → Option ByteArray
+    | [], acc => some acc
+    | [_], _ => none
+    | a :: b :: rest, acc =>
+      match hexVal a.toNat.toUInt8, hexVal b.toNat.toUInt8 with
+      | some x, some y => go rest (acc.push (x * 16 + y).toUInt8)
+      | _, _ => none
+  go cs ByteArray.empty
+
+def resultLine (id : String) (r : Result) : String :=
+  let evs := (match r.header with | some h => [h.toStr] | none => []) ++ r.evs.map Ev.toStr
+  s!"{id} {r.outcome.toStr} | {" ".intercalate evs}"
+
+partial def loop (h : IO.FS.Stream) (out : IO.FS.Stream) : IO Unit := do
+  let line ← h.getLine
+  if line.isEmpty then return ()
+  match line.trimAscii.toString.splitOn " " with
+  | ["case", id, flags, objsel, hex] =>
+    match flags.toNat?, objsel.toInt?, unhex hex with
+    | some f, some o, some data =>
+      out.putStrLn (resultLine id (readNL data f (if o < 0 then none else some o.toNat)))
+    | _, _, _ => out.putStrLn "bad-op"
+  | ["strtod", hex] =>
+    match unhex hex with
+    | some data =>
+      let inp : Inp := ⟨data⟩
+      let (p, v) := strtod inp.rd (inp.len + 2) 0
+      out.putStrLn s!"strtod {p} {dblStr v}"
+    | none => out.putStrLn "bad-op"
+  | _ => out.putStrLn "bad-op"
+  loop h out
+
+def main : IO Unit := do
+  let out ← IO.getStdout
+  loop (← IO.getStdin) out
